@@ -29,7 +29,7 @@ def main():
         mods = sorted(f for f in os.listdir(spec) if f.endswith(".tla"))
         bad = 0
         for m in mods:
-            p = subprocess.run(["java", "-cp", common.TLA_JAR, "tla2sany.SANY", m], cwd=spec, stdout=subprocess.PIPE,
+            p = subprocess.run(["java", "-Djava.io.tmpdir=" + d, "-cp", common.TLA_JAR, "tla2sany.SANY", m], cwd=spec, stdout=subprocess.PIPE,
                                stderr=subprocess.STDOUT, text=True, timeout=300)
             ok = p.returncode == 0 and "*** Errors" not in p.stdout and "Fatal errors" not in p.stdout
             print(("ok   " if ok else "FAIL ") + m)
